@@ -343,6 +343,69 @@ Section Refine.
       pose proof init_L_c_apply as H0. rewrite E0 in H0. now symmetry.
     - pose proof (passD_inv sD IH) as Hp. rewrite Ep in Hp. destruct Hp as [Hp _]. exact Hp.
   Qed.
+
+  (* ------------------------------------------------------------------ provider invariants *)
+  (* a predicate on provider states that initialize establishes and every other operation preserves holds for the provider at the top
+     of every pass with k > 0 (at k = 0 the pass starts with initialize), i.e. at EVERY apply / update / changed_γ / reset call *)
+  Section ProviderInv.
+    Variable Iv : D -> Prop.
+    Hypothesis I_init : forall d y S γ x xh p g d', d_initialize D ops d y S γ x xh p g = Some d' -> Iv d'.
+    Hypothesis I_update : forall d γ γn x xn p pn g gn, Iv d -> Iv (snd (d_update D ops d γ γn x xn p pn g gn)).
+    Hypothesis I_apply : forall d γ x xh p g q b q' d', Iv d -> d_apply D ops d γ x xh p g q = Some (b, q', d') -> Iv d'.
+    Hypothesis I_changed : forall d a b, Iv d -> Iv (d_changed_gamma D ops d a b).
+    Hypothesis I_reset : forall d, Iv d -> Iv (d_reset D ops d).
+
+    Lemma ls_loopD_I : forall fuel q ti s d rej, Iv d -> Iv (snd (fst (lsloopD fuel q ti s d rej))).
+    Proof.
+      induction fuel as [|f IH]; intros q ti s d rej Hd; [exact Hd|].
+      cbn [ls_loopD].
+      destruct (stop_req (ls_cnt s)); [exact Hd|].
+      destruct (if ls_tau s =? ls_tau_prev s then _ else _) as [[curr next] c1].
+      match goal with |- context [if ?c then lsloopD f q ti ?a ?b ?r else _] => destruct c end; [apply IH, I_reset, Hd|].
+      match goal with |- context [if ?c then lsloopD f q ti ?a ?b ?r else _] => destruct c end; [apply IH, Hd|].
+      assert (Hu : Iv (snd (if ls_upd s && negb (ls_updated s)
+                           then dir_update D ops d curr (eval_psih psi_grad_full psi_yhat P (eval_prox lb ub l1 next)) else (true, d)))).
+      { destruct (ls_upd s && negb (ls_updated s)); [apply I_update, Hd|exact Hd]. }
+      match goal with |- context [if ?c then lsloopD f q ti ?a ?b ?r else _] => destruct c end; [apply IH, Hu|exact Hu].
+    Qed.
+
+    Lemma passD_I sD : (st_k (sd_st D sD) = 0%nat \/ Iv (sd_dir D sD)) ->
+      match passD_ sD with PContD _ sD' => Iv (sd_dir D sD') | _ => True end.
+    Proof.
+      destruct sD as [[curr0 next0 k np q0 cnt stats log] d rej tr]. cbn [sd_st sd_dir st_k]. intros Hk.
+      unfold passD. cbn [sd_st sd_dir sd_rej sd_trace st_curr st_next st_k st_np st_q st_cnt st_stats st_log].
+      match goal with |- context [stop_status_helpers ?a ?b ?c ?d ?e ?f ?g ?h] => destruct (stop_status_helpers a b c d e f g h) end.
+      2-8: (cbv zeta; match goal with |- context [exit_block ?a ?b ?c ?d ?e ?f ?g ?h] => destruct (exit_block a b c d e f g h) as [[xo yo] eo] end; exact I).
+      set (curr := if need_gradh P && negb (ihave curr0) then eval_gradh grad_L grad_psi P curr0 else curr0).
+      destruct (if (k =? 0)%nat then d_initialize D ops d y_in Σ (igam curr) (ix curr) (ixh curr) (ip curr) (igrad curr) else Some d)
+        as [d1|] eqn:Ed1; [|exact I].
+      assert (H1 : Iv d1).
+      { destruct (Nat.eqb_spec k 0) as [Ek|Ek]; [exact (I_init _ _ _ _ _ _ _ _ _ Ed1)|].
+        injection Ed1 as <-. destruct Hk as [Hk|Hk]; [contradiction|exact Hk]. }
+      unfold dir_phase.
+      destruct ((0 <? k)%nat || hasinit).
+      - destruct (d_apply D ops d1 (igam curr) (ix curr) (ixh curr) (ip curr) (igrad curr) q0) as [[[b q'] d2]|] eqn:Ea; [|exact I].
+        pose proof (I_apply _ _ _ _ _ _ _ _ _ _ H1 Ea) as H2.
+        match goal with |- context [lsloopD ls_fuel ?q ?ti ?ls0 ?d3 ?r] =>
+          assert (H3 : Iv d3) by (destruct (true && negb (_ =? n1)); [apply I_reset, H2|exact H2]);
+          pose proof (ls_loopD_I ls_fuel q ti ls0 d3 r H3) as H4; destruct (lsloopD ls_fuel q ti ls0 d3 r) as [[lr d4] rej4] end.
+        cbn [fst snd] in H4. destruct lr as [l|l|]; [|exact H4|exact I].
+        destruct (ls_updated l); cbn [negb andb snd]; [exact H4|].
+        apply I_update. destruct (negb (igam (ls_curr l) =? igam (ls_next l))); [apply I_changed, H4|exact H4].
+      - cbn [andb].
+        match goal with |- context [lsloopD ls_fuel ?q ?ti ?ls0 ?d3 ?r] =>
+          pose proof (ls_loopD_I ls_fuel q ti ls0 d3 r H1) as H4; destruct (lsloopD ls_fuel q ti ls0 d3 r) as [[lr d4] rej4] end.
+        cbn [fst snd] in H4. destruct lr as [l|l|]; [|exact H4|exact I].
+        destruct (ls_updated l); cbn [negb andb snd]; [exact H4|].
+        apply I_update. destruct (negb (igam (ls_curr l) =? igam (ls_next l))); [apply I_changed, H4|exact H4].
+    Qed.
+    Lemma reachableD_I sD : reachableD sD -> st_k (sd_st D sD) = 0%nat \/ Iv (sd_dir D sD).
+    Proof.
+      induction 1 as [i0 c0 i3 c1 s1 E0 Eq|sD sD' _ IH Ep]; [left; reflexivity|].
+      right. pose proof (passD_I sD IH) as Hp. rewrite Ep in Hp. exact Hp.
+    Qed.
+  End ProviderInv.
+
 End Refine.
 
 (* ====================================================================== over R: the theorems of PanocProofs.v for every provider *)
